@@ -20,7 +20,7 @@ vspec entries:
     @@ labelblock <alias> <fn key> <'label>            R9
     @@ forbytes <alias> <fn key> <#n|'label>           R12
     @@ unmutparam <alias> <fn key> <param names..>      R11
-    @@ closure <alias> <fn key> <param tokens..>        R10 (params:/ret:/spec:)
+    @@ closure <alias> <fn key> <param tokens..>        R10 (params:/ret:/spec:); `closure?` = attach only if present
     @@ retoken <alias> <kind> <name>   (from:/to:/rule:/note: sections; tokens space separated)
     @@ in <alias|*> <kind> <name-glob>   (items: inserted at the start of the body)
     @@ fn <alias|*> <key-glob>           (tags:/ret:/attr:/spec:/body:)
@@ -116,9 +116,16 @@ class Unit:
                 for nm in h[3:]:
                     rsx.r11_unmut_param(self.sources[alias], self.edits[alias], self._fn(alias, key), nm)
                 e.used = True
-            elif h[0] == "closure":
+            elif h[0] in ("closure", "closure?"):
+                # `closure?`: the contract attaches if the closure is there; if the code no longer has it, whatever replaced it
+                # is verified without this annotation (and fails the caller's obligations if it matters)
                 alias, key = h[1], h[2]
-                rsx.annotate_closure(self.sources[alias], self.edits[alias], self._fn(alias, key), h[3:], e)
+                try:
+                    rsx.annotate_closure(self.sources[alias], self.edits[alias], self._fn(alias, key), h[3:], e)
+                except Drift as d:
+                    if h[0] == "closure" or "found 0 times" not in str(d):
+                        raise
+                    self.notes.append("optional closure contract not attached: %s" % d)
                 e.used = True
             elif h[0] == "count":
                 # @@ count <alias> <kind> <name> <identifier> <n>: side condition of a rewrite - the identifier occurs n times
